@@ -42,6 +42,7 @@ type c14Input struct {
 	// raw input (frames, random bytes); for "damaged" inputs Flips/Cut edit the valid encoding
 	Raw   []byte   `json:"raw,omitempty"`
 	Flips []uint64 `json:"flips,omitempty"`
+	Disc  []uint64 `json:"disc,omitempty"` // discriminator octets (option / boolean / variant tag) set to chosen values
 	Cut   int      `json:"cut,omitempty"` // -1: no cut
 }
 
@@ -283,9 +284,30 @@ func c14RawCheck(c *kit.Case, in c14Input) {
 	what := "raw bytes"
 	if in.Node != nil {
 		// damaged valid encoding
-		_, enc0, sg, _ := c14Encode(c, in, c14All)
+		_, enc0, sg, marks := c14Encode(c, in, c14All)
 		seg = sg
 		s = append([]byte{}, enc0...)
+		// discriminators first (positions come from the layout of the undamaged encoding): the first
+		// value past the valid ones, its neighbours, another valid arm, and the extremes
+		var ds []*typegen.Mark
+		for i := range marks {
+			if m := &marks[i]; (m.Kind == typegen.MarkOpt || m.Kind == typegen.MarkBool || m.Kind == typegen.MarkTag) && m.Off < len(s) {
+				ds = append(ds, m)
+			}
+		}
+		for _, f := range in.Disc {
+			if len(ds) == 0 {
+				break
+			}
+			m := ds[int((f>>8)%uint64(len(ds)))]
+			valid := 2
+			if m.Kind == typegen.MarkTag {
+				valid = m.Valid
+			}
+			cands := []int{valid, valid + 1, valid - 1, 0, 1, 2, 0x7F, 0x80, 0xFE, 0xFF}
+			s[m.Off] = byte(cands[int(f&0xFF)%len(cands)])
+			c.Class("damaged_discriminator")
+		}
 		for _, f := range in.Flips {
 			if len(s) > 0 {
 				s[int(f>>8)%len(s)] ^= byte(f) | 1
@@ -294,7 +316,7 @@ func c14RawCheck(c *kit.Case, in c14Input) {
 		if in.Cut >= 0 && len(s) > 0 {
 			s = s[:in.Cut%len(s)]
 		}
-		what = fmt.Sprintf("valid encoding with %d byte flips, cut=%d", len(in.Flips), in.Cut)
+		what = fmt.Sprintf("valid encoding with %d discriminator edits, %d byte flips, cut=%d", len(in.Disc), len(in.Flips), in.Cut)
 		c.Class("damaged_valid_encoding")
 	}
 	if _, rej := cdcRefDecode(cdc, s, seg, ""); rej == nil || rej.Off > 0 {
@@ -309,6 +331,12 @@ func c14GenRandom(rt *rapid.T) c14Input {
 	if rapid.Bool().Draw(rt, "damaged") && cdcFind(c14Both, in.Type) != nil {
 		c14GenNode(rt, &in, c14All)
 		in.Flips = rapid.SliceOfN(rapid.Uint64(), 0, 3).Draw(rt, "flips")
+		if rapid.Bool().Draw(rt, "disck") {
+			in.Disc = rapid.SliceOfN(rapid.Uint64(), 1, 2).Draw(rt, "disc")
+			if rapid.Bool().Draw(rt, "disconly") {
+				in.Flips = nil
+			}
+		}
 		if rapid.Bool().Draw(rt, "cutk") {
 			in.Cut = rapid.IntRange(0, 1<<20).Draw(rt, "cut")
 		}
@@ -346,6 +374,54 @@ func c14ValidCheck(c *kit.Case, in c14Input) {
 	c14Verdict(c, cdc, enc0, seg, in.Mode, r, "valid encoding")
 }
 
+// ---- frame reader history: what a frame may allocate does not depend on earlier frames.
+// A large frame is received in full first (same process, as on a long-lived connection); then a
+// short frame that merely ANNOUNCES a large payload must stay within the same per-input bound.
+type c14HistInput struct {
+	SizeKB   int    `json:"size_kb"`  // payload of the first, complete frame
+	Announce uint32 `json:"announce"` // announced length of the second frame
+	Have     []byte `json:"have"`     // octets of the second frame that really arrive after the type
+	Type     byte   `json:"type"`
+}
+
+func c14GenHist(rt *rapid.T) c14HistInput {
+	in := c14HistInput{
+		SizeKB: rapid.SampledFrom([]int{1200, 1500, 2048, 3000}).Draw(rt, "size_kb"),
+		Have:   rapid.SliceOfN(rapid.Byte(), 0, 64).Draw(rt, "have"),
+		Type:   rapid.SampledFrom([]byte{0, 1, 2, 3, 4, 5, 255, 9}).Draw(rt, "type"),
+	}
+	base := uint32(in.SizeKB)*1024 + 16
+	in.Announce = rapid.OneOf(rapid.Uint32Range(base, base+4096), rapid.Uint32Range(base, 1<<31), rapid.Just(^uint32(0))).Draw(rt, "announce")
+	return in
+}
+
+func c14HistCheck(c *kit.Case, in c14HistInput) {
+	if in.SizeKB <= 0 || in.SizeKB > 8192 || len(in.Have) > 4096 {
+		return
+	}
+	cdc := cdcFind(c14All, "fuzz.Message")
+	if cdc == nil {
+		return
+	}
+	big, err := (&Message{Type: MessageType_ErrorMessage, Error: &ErrorMessage{Error: strings.Repeat("x", in.SizeKB*1024)}}).MarshalBinary()
+	if err != nil {
+		c.Failf("cannot build the large frame: %v", err)
+	}
+	r1 := c14Worker.call(&cdcReq{Codec: cdc.Name, Mode: "tiny", Data: big})
+	if r1.Died != "" || r1.Panic != "" || r1.Err != "" {
+		c.Failf("a complete %d-KiB error-message frame was not accepted: died=%q panic=%q err=%q", in.SizeKB, r1.Died, r1.Panic, r1.Err)
+	}
+	c14Verdict(c, cdc, big, types.HashSegmentMap{}, "tiny", r1, "complete large frame")
+	s2 := make([]byte, 4, 5+len(in.Have))
+	binary.LittleEndian.PutUint32(s2, in.Announce)
+	s2 = append(append(s2, in.Type), in.Have...)
+	if int(in.Announce) > len(in.Have)+1 {
+		c.NonTrivial() // the second frame announces more than arrives
+	}
+	r2 := c14Worker.call(&cdcReq{Codec: cdc.Name, Mode: "tiny", Data: s2})
+	c14Verdict(c, cdc, s2, types.HashSegmentMap{}, "tiny", r2, fmt.Sprintf("short frame announcing %d octets right after a complete %d-KiB frame on the same process", in.Announce, in.SizeKB))
+}
+
 func TestVerif_C14(t *testing.T) {
 	if os.Getenv(cdcWorkerEnv) != "" {
 		cdcWorkerMain()
@@ -373,6 +449,7 @@ func TestVerif_C14(t *testing.T) {
 	kit.Run(s, "hostile_frames", kit.N{Quick: 2000, Thorough: 20000}, c14GenFrame, c14RawCheck)
 	kit.Run(s, "arbitrary_and_damaged_bytes", kit.N{Quick: 8000, Thorough: 80000}, c14GenRandom, c14RawCheck)
 	kit.Run(s, "valid_encodings_within_bound", kit.N{Quick: 2000, Thorough: 20000}, c14GenValid, c14ValidCheck)
+	kit.Run(s, "frame_after_large_frame", kit.N{Quick: 80, Thorough: 1500}, c14GenHist, c14HistCheck)
 	s.Note("decode worker restarts in this shard: %d; native `go test -fuzz` targets are not run (no driver support)", c14Worker.Deaths)
 	_ = reflect.TypeOf
 }
